@@ -136,6 +136,45 @@ func (e *Engine) genVals(ts []int) [][]byte {
 	return out
 }
 
+// cloneVals: now and then the values of a component-value call are not fresh objects but the pointers World.Get returns
+// for another entity ("clone a template"), preferably an entity that sits in the table the call's entity ends up in, so
+// that the source is read while its own table is being grown or re-arranged.
+func (e *Engine) cloneVals(c *cursor, op *COp, dest uint32) {
+	if len(op.Add) == 0 || len(op.Vals) != len(op.Add) || op.Illegal != "" || c.n(5) != 1 || len(e.M.Alive) == 0 {
+		return
+	}
+	off := c.n(len(e.M.Alive))
+	op.CloneOf = make([]ecs.Entity, len(op.Add))
+	for i, t := range op.Add {
+		var any, same *MEnt
+		for k := range e.M.Alive {
+			me := e.M.Alive[(k+off)%len(e.M.Alive)]
+			if !me.Has(t) || me.H == op.Ent {
+				continue
+			}
+			if any == nil {
+				any = me
+			}
+			if me.Cs == dest {
+				same = me
+				break
+			}
+		}
+		if same != nil {
+			any = same
+		}
+		if any == nil {
+			continue
+		}
+		op.CloneOf[i] = any.H
+		op.Vals[i] = append([]byte{}, any.Val[t]...)
+		e.St.Probes["value-cloned-from-get-pointer"]++
+		if same != nil {
+			e.St.Probes["value-cloned-from-entity-in-destination-table"]++
+		}
+	}
+}
+
 func (e *Engine) relTypes() (rels, plains []int) {
 	for _, t := range e.regTypes() {
 		if e.M.RelMask&(1<<uint(t)) != 0 {
@@ -232,6 +271,9 @@ func (e *Engine) genCreation(c *cursor, op *COp) {
 		op.Vals = e.genVals(op.Add)
 	}
 	if !e.illegalIntent(c) {
+		if op.With {
+			e.cloneVals(c, op, setOf(op.Add))
+		}
 		return
 	}
 	rels, plains := e.relTypes()
@@ -298,6 +340,7 @@ func (e *Engine) genCreation(c *cursor, op *COp) {
 	}
 	if op.With {
 		op.Vals = e.genVals(op.Add)
+		op.CloneOf = nil
 	}
 }
 
@@ -726,6 +769,9 @@ func (e *Engine) opExchange(c *cursor) *Violation {
 	}
 	if op.With {
 		op.Vals = e.genVals(op.Add)
+		if me != nil && op.Illegal == "" {
+			e.cloneVals(c, op, (me.Cs|setOf(op.Add))&^setOf(op.Rem))
+		}
 	}
 	var tgt *MEnt = me
 	if op.Illegal == "dead-entity" {
